@@ -897,4 +897,16 @@ v("pair-returning-helper-flag-ignored", PK + [(P, APPLY_TRY, pair_use(""))], {"C
 v("pair-returning-helper-swapped-components", [(P, "    async def _apply_spawner(\n", PAIR_HELPER.replace("        return coroutine, True\n", "        return True, coroutine\n"))]
   + [(P, APPLY_TRY, pair_use("            if not created:\n                continue\n"))], {"C04": "R04"})
 
+v("P-cancel-kw-before-lookups", [(P, "        tasks = [self._get_running_task(task_id) for task_id in task_ids]\n        kw = self._get_cancel_kw(msg)\n",
+                                 "        kw = self._get_cancel_kw(msg)\n        tasks = [self._get_running_task(task_id) for task_id in task_ids]\n")], {"C06": "ok", "C07": "ok", "C14": "ok"})
+v("cancel-lookups-generator-in-loop-header", [(P, "        tasks = [self._get_running_task(task_id) for task_id in task_ids]\n        kw = self._get_cancel_kw(msg)\n        for task in tasks:\n",
+                                              "        kw = self._get_cancel_kw(msg)\n        for task in (self._get_running_task(task_id) for task_id in task_ids):\n")], {"C06": "R06.3"})
+
+STOP_BREAK = "                # there may well be more tasks left to keep running\n                break\n"
+v("P-stop-bound-continue-instead-of-break", [(P, STOP_BREAK, "                # there may well be more tasks left to keep running\n                continue\n")], {"C14": "ok"})
+v("stop-bound-test-after-append", [(P, "            if i >= num:\n                # We got the desired number of task IDs,\n" + STOP_BREAK + "            ids.append(task_id)\n",
+                                    "            ids.append(task_id)\n            if i >= num:\n                break\n")], {"C14": "R14.1"})
+
+v("P-closed-set-before-running-cleared", [(P, "        self._tasks_running.clear()\n        self._closed.set()\n", "        self._closed.set()\n        self._tasks_running.clear()\n")], {"C08": "ok"})
+
 VARIANTS = V
